@@ -163,8 +163,9 @@ pub(crate) fn decompress(x: &[u8], n: usize) -> Option<Vec<i16>> {
 
     // for all elements (last round is special due to bound checks)
     for _ in 0..n - 1 {
-        // early return if
-        if index + 8 >= bitvector.len() {
+        // early return if there is no room for this coefficient (9 bits at least)
+        // and the start of the next one
+        if index + 9 >= bitvector.len() {
             return None;
         }
 
